@@ -108,6 +108,17 @@ CHECKS["C02"] = dict(
     design="3/C02",
 )
 
+CHECKS["C10"] = dict(
+    technique="symbolic tensor execution of the real DMRG code (energy network, moving environments, local updates, sweeps) with the local eigensolver and LAPACK replaced by contract stubs; z3 identity queries and certificates",
+    text="Bounded symbolic model checking: (1) for general complex symbolic MPOs and MPSs (L <= 3) the energy network of a DMRG object equals <k|H k> computed by the library's own ham.apply "
+         "and by an independent dense reference; (2) every position of the moving environment contracts to the value of the whole; (3) with the eigensolver replaced by its contract "
+         "(H_eff v = lambda v, v^dag v = 1), after every local update of a DMRG1/DMRG2 sweep in either direction the reported local and total energies equal <psi|H psi> of the updated, "
+         "normalised state and dmrg.state reproduces the reported energy through ham.apply (L = 2 mandatory; L = 3, 4 thorough); (4) the bond cap holds after 2-site updates. "
+         "A numeric cross-run solves random complex Hermitian MPOs and compares with exact diagonalisation.",
+    note="Trusted: z3, qv engines, eigensolver and LAPACK contracts. Outside: convergence, monotone decrease (inequality contract of the eigensolver), periodic boundaries, DMRGX, truncation.",
+    design="3/C10",
+)
+
 NA = {}
 
 
